@@ -58,6 +58,7 @@ type oflags struct {
 	hlAlias         bool // a hard link names its target by another spelling than the one it was created under
 	danglingThrough bool // a dangling hard link was placed through a symbolic link
 	lexMismatch     bool // a symlink target means something else lexically than it does in place
+	hardNotPlain    bool // a hard link whose target is not, at that moment, a regular file
 	hardlinks       int
 }
 
@@ -291,8 +292,12 @@ func extract(ms []member) *otree {
 			n := mk('h')
 			n.target = m.Link
 			t.flags.hardlinks++
-			if r, _ := t.resolve(lexClean(m.Link), false); r == nil {
+			r, _ := t.resolve(lexClean(m.Link), false)
+			if r == nil {
 				t.flags.deferred++
+			}
+			if r == nil || r.kind != 'f' {
+				t.flags.hardNotPlain = true
 			}
 		case 'x':
 			if old != nil {
